@@ -22,6 +22,55 @@ Definition star : Z := collections_trie_WildCardStar.
 (* the character Filter writes over a match: strings.Repeat("*", n) *)
 Definition mask : Z := 42.
 
+(* Go's string -> rune conversion (`for _, ch := range s`, `[]rune(s)`): UTF-8 decoding as
+   unicode/utf8 does it — a byte that does not start a valid, shortest-form encoding of a
+   scalar value yields U+FFFD and is skipped alone. *)
+Definition rune_error : Z := 65533.
+Definition in_range (lo hi b : Z) : bool := (lo <=? b) && (b <=? hi).
+
+(* first rune of b and the number of bytes it takes *)
+Definition decode_rune (b : list Z) : Z * nat :=
+  match b with
+  | [] => (rune_error, 1%nat)
+  | b0 :: r =>
+      if b0 <? 128 then (b0, 1%nat)
+      else if in_range 194 223 b0 then
+        match r with
+        | b1 :: _ => if in_range 128 191 b1 then ((b0 - 192) * 64 + (b1 - 128), 2%nat)
+                     else (rune_error, 1%nat)
+        | _ => (rune_error, 1%nat)
+        end
+      else if in_range 224 239 b0 then
+        let lo := if b0 =? 224 then 160 else 128 in
+        let hi := if b0 =? 237 then 159 else 191 in
+        match r with
+        | b1 :: b2 :: _ =>
+            if in_range lo hi b1 && in_range 128 191 b2
+            then ((b0 - 224) * 4096 + (b1 - 128) * 64 + (b2 - 128), 3%nat)
+            else (rune_error, 1%nat)
+        | _ => (rune_error, 1%nat)
+        end
+      else if in_range 240 244 b0 then
+        let lo := if b0 =? 240 then 144 else 128 in
+        let hi := if b0 =? 244 then 143 else 191 in
+        match r with
+        | b1 :: b2 :: b3 :: _ =>
+            if in_range lo hi b1 && in_range 128 191 b2 && in_range 128 191 b3
+            then ((b0 - 240) * 262144 + (b1 - 128) * 4096 + (b2 - 128) * 64 + (b3 - 128), 4%nat)
+            else (rune_error, 1%nat)
+        | _ => (rune_error, 1%nat)
+        end
+      else (rune_error, 1%nat)
+  end.
+
+Fixpoint runes_loop (fuel : nat) (b : list Z) : list Z :=
+  match fuel, b with
+  | _, [] => []
+  | O, _ => []
+  | S f, _ => let '(r, w) := decode_rune b in r :: runes_loop f (skipn w b)
+  end.
+Definition runes_of_bytes (b : list Z) : list Z := runes_loop (length b) b.
+
 Fixpoint child_get (c : Z) (l : list (Z * trie)) : option trie :=
   match l with
   | [] => None
